@@ -61,11 +61,40 @@ def main():
             print(name, "breaks", meta["property"], "caught_by", caught, "concrete", concrete, "errors", errors, flush=True)
             return name, dict(breaks=meta["property"], caught_by=caught, with_failing_input=concrete, errors=errors,
                               target_caught=meta["property"] in caught)
-        with cf.ThreadPoolExecutor(2) as ex:
+        with cf.ThreadPoolExecutor(int(os.environ.get("SEEDED_PARALLEL", "2"))) as ex:
             for name, r in ex.map(one, sorted(glob.glob(os.path.join(VERIF, "seeded", "*", "patch.diff")))):
                 results[name] = r
         json.dump(results, open(os.path.join(VERIF, "seeded", "RESULTS.json"), "w"), indent=1)
 
 
+def target_mode(names):
+    """re-evaluate only the check of the property each change was written to break (after a harness change) and merge the outcome
+    into RESULTS.json: tools/seeded.py target [Cxx_y ...]   (default: every change)"""
+    path = os.path.join(VERIF, "seeded", "RESULTS.json")
+    results = json.load(open(path)) if os.path.exists(path) else {}
+    dirs = sorted(glob.glob(os.path.join(VERIF, "seeded", "*", "patch.diff")))
+    if names:
+        dirs = [d for d in dirs if os.path.basename(os.path.dirname(d)) in names]
+
+    def one(d):
+        name = os.path.basename(os.path.dirname(d))
+        meta = json.load(open(os.path.join(os.path.dirname(d), "meta.json")))
+        r = evaluate(d, [meta["property"]])[0]
+        print(name, "breaks", meta["property"], "target", "CAUGHT" if r["violation"] else "missed", "concrete" if r["concrete"] else "", r["first"][:120], flush=True)
+        return name, meta["property"], r
+    with cf.ThreadPoolExecutor(int(os.environ.get("SEEDED_PARALLEL", "8"))) as ex:
+        for name, prop, r in ex.map(one, dirs):
+            v = results.setdefault(name, dict(breaks=prop, caught_by=[], with_failing_input=[], errors=[], target_caught=False))
+            cb = set(v["caught_by"]); cc = set(v["with_failing_input"])
+            (cb.add if r["violation"] else cb.discard)(prop)
+            (cc.add if r["concrete"] else cc.discard)(prop)
+            v["caught_by"] = sorted(cb); v["with_failing_input"] = sorted(cc)
+            v["target_caught"] = prop in cb
+    json.dump(results, open(path, "w"), indent=1)
+
+
 if __name__ == "__main__":
-    main()
+    if len(sys.argv) > 1 and sys.argv[1] == "target":
+        target_mode(sys.argv[2:])
+    else:
+        main()
